@@ -80,8 +80,11 @@ def _worker(args):
                     nviol += 1
                     if len(first) < 3:
                         first.append(dict(call=desc, violations=[list(v) for v in viol]))
+            from .replay import EXEC_STATS
             out['domain'] = dict(evaluated=n, violating=nviol, first=first,
-                                 wall_s=round(__import__('time').time() - t1, 2))
+                                 wall_s=round(__import__('time').time() - t1, 2),
+                                 clause_evaluations=EXEC_STATS['clauses'],
+                                 clauses_not_executable=sorted(EXEC_STATS['not_executable']))
           except LookupError as e:
             if type(e).__name__ != 'SegmentNotFound':
                 out['domain_error'] = f'{type(e).__name__}: {e}\n{traceback.format_exc()[-1500:]}'
